@@ -18,7 +18,16 @@ import (
 func c13Ref(o V5Opts) ref.Opts {
 	r := o.Ref()
 	r.EmptyTokens = true
+	r.HugeIndices = true // "out-of-range-index targets": however many digits the index has
 	return r
+}
+
+var hugeIdxToks = []string{"4294967296", "9223372036854775807", "9223372036854775808", "18446744073709551616", "99999999999999999999", "1000000000000000000000000000000",
+	"-4294967296", "-9223372036854775808", "-9223372036854775809", "-18446744073709551617", "-99999999999999999999"}
+var hugeIdxDocs = []struct{ doc, arr string }{
+	{`{"b":[1,2,3],"c":0}`, "/b"},
+	{`{"a":{"l":[[1],{"x":2}]},"z":[]}`, "/a/l"},
+	{`{"e":[],"k":1}`, "/e"},
 }
 
 func judgeAllowMissing(c *core.Ctx, sc *SeqCase, o V5Opts) {
@@ -158,6 +167,40 @@ func init() {
 				}
 				sc := &SeqCase{DocText: fixedDocs[s.doc], Doc: mustParse(fixedDocs[s.doc]), Ops: []ref.Op{s.op}, OpTexts: []string{s.text}}
 				judgeAllowMissing(c, sc, V5Opts{NegIdx: s.neg, EscapeHTML: true})
+			}},
+			{Name: "indices-beyond-the-int-range", Exhaustive: true, Count: func(core.Tier) int { return len(hugeIdxToks) * len(hugeIdxDocs) * 3 * 2 * 2 }, Run: func(c *core.Ctx, idx int) {
+				// an index with more digits than an int holds is as out of range as len+1: skipped with the option,
+				// as last token, as interior token, and with another operation following
+				tok := hugeIdxToks[idx%len(hugeIdxToks)]
+				idx /= len(hugeIdxToks)
+				dc := hugeIdxDocs[idx%len(hugeIdxDocs)]
+				idx /= len(hugeIdxDocs)
+				shape := idx % 3
+				idx /= 3
+				neg := idx%2 == 0
+				follow := idx/2 == 1
+				if tok[0] == '-' && !neg {
+					c.Count("out_of_domain")
+					return
+				}
+				path := dc.arr + "/" + tok
+				if shape == 1 {
+					path += "/x"
+				}
+				ops := []ref.Op{{Kind: "remove", Path: path}}
+				texts := []string{OpText("remove", path, "", "", false)}
+				if shape == 2 {
+					// first a remove that exists, so that the array has been parsed and edited
+					ops = append([]ref.Op{{Kind: "remove", Path: dc.arr + "/0"}}, ops...)
+					texts = append([]string{OpText("remove", dc.arr+"/0", "", "", false)}, texts...)
+				}
+				if follow {
+					ops = append(ops, ref.Op{Kind: "remove", Path: dc.arr})
+					texts = append(texts, OpText("remove", dc.arr, "", "", false))
+				}
+				sc := &SeqCase{DocText: dc.doc, Doc: mustParse(dc.doc), Ops: ops, OpTexts: texts}
+				judgeAllowMissing(c, sc, V5Opts{NegIdx: neg, EscapeHTML: true})
+				c.Count("huge-index:cases")
 			}},
 			{Name: "remove-heavy-sequences", Count: n(50000, 1200000), Run: func(c *core.Ctx, idx int) {
 				o := V5Opts{NegIdx: c.R.Intn(2) == 0, EscapeHTML: true}
